@@ -271,10 +271,61 @@ func fillValue(r *rng, v reflect.Value, depth int, big bool, optPct int) {
 			if depth > 4 {
 				pct = optPct / 3
 			}
-			if opt && nilableKind && !r.chance(pct) {
+			nums0 := tagNumbers(t.Field(i).Tag.Get("ber"))
+			untried := len(nums0) > 0 && tagNumbersTried[t.String()+"."+t.Field(i).Name] < len(nums0)
+			if opt && nilableKind && !untried && !r.chance(pct) {
 				continue // absent
 			}
 			fillValue(r, f, depth+1, big, optPct)
+			// numbers the member's tag names (default:N, valueLB:N, valueUB:N, sizeLB:N, sizeUB:N) are values to try: a codec
+			// that treats "the default" or "the bound" specially shows it only on exactly these
+			if nums := tagNumbers(t.Field(i).Tag.Get("ber")); len(nums) > 0 {
+				key := t.String() + "." + t.Field(i).Name
+				if k := tagNumbersTried[key]; k < len(nums) {
+					// the first values this member ever gets are exactly the numbers its tag names, one after the other
+					tagNumbersTried[key] = k + 1
+					setIntLeaf(f, nums[k])
+				} else if r.chance(45) {
+					setIntLeaf(f, nums[r.intn(len(nums))]+int64(r.pick(0, 0, 0, 1, -1)))
+				}
+			}
+		}
+	}
+}
+
+var tagNumbersTried = map[string]int{}
+
+// the numeric parameters of a `ber:` tag
+func tagNumbers(tag string) []int64 {
+	var out []int64
+	for _, part := range strings.Split(tag, ",") {
+		for _, k := range []string{"default:", "valueLB:", "valueUB:", "sizeLB:", "sizeUB:"} {
+			if strings.HasPrefix(part, k) {
+				if n, err := strconv.ParseInt(part[len(k):], 10, 64); err == nil {
+					out = append(out, n)
+				}
+			}
+		}
+	}
+	return out
+}
+
+// setIntLeaf stores n in the integer the value holds (directly, behind a non-nil pointer or in a Value wrapper)
+func setIntLeaf(v reflect.Value, n int64) {
+	switch v.Kind() {
+	case reflect.Int, reflect.Int64:
+		if v.Type() != asn.EnumeratedType {
+			v.SetInt(n)
+		}
+	case reflect.Int32:
+		v.SetInt(int64(int32(n)))
+	case reflect.Ptr:
+		if !v.IsNil() {
+			setIntLeaf(v.Elem(), n)
+		}
+	case reflect.Struct:
+		if v.NumField() > 0 && v.Type().Field(0).Name == "Value" {
+			setIntLeaf(v.Field(0), n)
 		}
 	}
 }
@@ -481,13 +532,17 @@ func genBer(o genOpts, w *bufio.Writer) {
 	emit := func(t reflect.Type, params string, v reflect.Value) {
 		fmt.Fprintf(w, "ber R %s %s %s\n", tyStr(t, 0), paramStr(params), valStr(v))
 	}
-	// 1. every schema type
+	// 1. every schema type, by name: the harness decodes into / encodes from cdrType.<name> itself, the Lean side looks the
+	//    name up in the regenerated schema (Gen.schema)
+	emitNamed := func(n string, params string, v reflect.Value) {
+		fmt.Fprintf(w, "ber R T:%s %s %s\n", n, paramStr(params), valStr(v))
+	}
 	for _, n := range cdrTypeNames {
 		t := cdrTypes[n]
 		for k := 0; k < perType; k++ {
 			v := reflect.New(t).Elem()
 			fillValue(r, v, 0, big || k == 1, []int{30, 70, 100, 0}[k%4])
-			emit(t, "", v)
+			emitNamed(n, "", v)
 		}
 	}
 	// the record as the CHF marshals it
@@ -495,7 +550,7 @@ func genBer(o genOpts, w *bufio.Writer) {
 		t := cdrTypes["CHFRecord"]
 		v := reflect.New(t).Elem()
 		fillValue(r, v, 0, big, []int{20, 50, 90}[k%3])
-		emit(t, "explicit,choice", v)
+		emitNamed("CHFRecord", "explicit,choice", v)
 	}
 	// 2. primitives with top-level parameters
 	prim := []reflect.Type{reflect.TypeOf(int64(0)), reflect.TypeOf(int32(0)), reflect.TypeOf(true), asn.OctetStringType, asn.BitStringType,
@@ -742,6 +797,14 @@ func (p *tyParser) params() (tag string) {
 }
 
 func (p *tyParser) ty() reflect.Type {
+	// T:<name> = the schema type cdrType.<name> itself (with every parameter its `ber:` tags carry, also those the
+	// notation has no place for: default:, valueLB:, sizeUB: …)
+	if p.i == 0 && strings.HasPrefix(p.s, "T:") {
+		if t, ok := cdrTypes[p.s[2:]]; ok {
+			p.i = len(p.s)
+			return t
+		}
+	}
 	c := p.peek()
 	p.i++
 	switch c {
